@@ -131,6 +131,14 @@ class HX:
             return SDyad(n, e)
         return n / float(1 << e)
 
+    def text(self, n, name):
+        """n characters in the ASCII range (symbolic 7-bit code points)"""
+        codes = [self.int(7, "%s[%d]" % (name, i)) for i in range(n)]
+        if self.mode == "sym":
+            from sxl.sstr import SStr
+            return SStr(codes) if n else ""
+        return "".join(chr(c) for c in codes)
+
     def flag(self, name):
         """declared two-way case split (forks)"""
         b = self._v(name)
